@@ -32,8 +32,13 @@ theorem luFactor_identity (laws : MagLaws K) (P : Params K Rat) (hP : Legal P) (
         ((luFactor P b).U.getD j #[]).getD k 0 * ((luFactor P b).L.getD k #[]).get i).sum := by
   rw [luFactor_eq_run] at h ⊢
   have inv := run_inv laws P hP.u_pos hP.u_le_one hP.col_size b P.n h
-  rw [inv.ident j hj i hi, dotL_prev _ _ (j + 1) i (by simp [inv.usize j hj])]
-  simp [Array.getD, List.getD]
+  rw [inv.ident j hj i hi, dotL_prev _ _ (j + 1) i (by rw [Array.length_toList]; exact inv.usize j hj)]
+  congr 1
+  apply List.map_congr_left
+  intro t _
+  congr 1
+  generalize (run P b P.n).U.getD j #[] = a
+  by_cases ht : t < a.size <;> simp [Array.getD, List.getD, ht]
 
 /-- **C02 (unit lower trapezoidal L).** `L(piv k, k) = 1` and `L(piv k', k) = 0` for `k' < k`:
 in the permuted row order L has a unit diagonal and nothing above it. -/
@@ -46,28 +51,31 @@ theorem luFactor_unit_lower (laws : MagLaws K) (P : Params K Rat) (hP : Legal P)
   have inv := run_inv laws P hP.u_pos hP.u_le_one hP.col_size b (k + 1) hk'
   have invn := run_inv laws P hP.u_pos hP.u_le_one hP.col_size b P.n h
   -- read the property off `UnitLower (prev st n)`
-  have key : ∀ (Ls : List (Nat × Vec K)), UnitLower Ls → ∀ a (ha : a < Ls.length),
-      (Ls[a]).2.get (Ls[a]).1 = 1 ∧ ∀ a' (ha' : a' < a), (Ls[a]).2.get (Ls[a']).1 = 0 := by
+  have key : ∀ (Ls : List (Nat × Vec K)), UnitLower Ls → ∀ (a : Nat) (x : Nat × Vec K), Ls[a]? = some x →
+      x.2.get x.1 = 1 ∧ ∀ (a' : Nat) (y : Nat × Vec K), a' < a → Ls[a']? = some y → x.2.get y.1 = 0 := by
     intro Ls
     induction Ls with
-    | nil => intro _ a ha; simp at ha
+    | nil => intro _ a x hx; simp at hx
     | cons pl rest ih =>
       obtain ⟨p, l⟩ := pl
-      intro hU a ha
+      intro hU a x hx
       obtain ⟨h1, h2, h3⟩ := hU
       cases a with
-      | zero => exact ⟨by simpa using h1, fun a' ha' => by omega⟩
+      | zero =>
+        simp at hx; subst hx
+        exact ⟨h1, fun a' y ha' _ => by omega⟩
       | succ a =>
-        have := ih h3 a (by simpa using ha)
-        refine ⟨by simpa using this.1, ?_⟩
-        intro a' ha'
+        simp at hx
+        have := ih h3 a x hx
+        refine ⟨this.1, ?_⟩
+        intro a' y ha' hy
         cases a' with
-        | zero => simpa using h2 (rest[a]) (List.getElem_mem _)
-        | succ a' => simpa using this.2 a' (by omega)
-  have hlen : (prev (run P b P.n) P.n).length = P.n := prev_length _ _
-  have := key _ invn.unit k (by rw [hlen]; exact hk)
-  simp only [prev, List.getElem_map, List.getElem_range] at this
-  exact ⟨this.1, fun k' hk' => this.2 k' hk'⟩
+        | zero => simp at hy; subst hy; exact h2 x (List.mem_of_getElem? hx)
+        | succ a' => simp at hy; exact this.2 a' y (by omega) hy
+  have hget : ∀ t < P.n, (prev (run P b P.n) P.n)[t]? = some ((run P b P.n).piv.getD t 0, (run P b P.n).L.getD t #[]) := by
+    intro t ht; simp [prev, ht]
+  have := key _ invn.unit k _ (hget k hk)
+  exact ⟨this.1, fun k' hk' => this.2 k' _ hk' (hget k' (by omega))⟩
 
 /-- **C02 (U has a nonzero diagonal).** -/
 theorem luFactor_diag_nonzero (laws : MagLaws K) (P : Params K Rat) (hP : Legal P) (b : Bool)
@@ -114,21 +122,7 @@ theorem luFactor_multiplier_le_inv_u (laws : MagLaws K) (hmul : ∀ a b : K, (Ma
   have hdpos : 0 < d := by
     rcases lt_or_eq_of_le (laws.nonneg (((luFactor P b).U.getD k #[]).getD k 0)) with h1 | h1
     · exact h1
-    · exfalso
-      -- |d| = 0 with d ≠ 0 contradicts multiplicativity: |d| * |1/d| = |1| and |x| = |x * 1| = |x||1|
-      have h1' : d = 0 := h1.symm
-      have hone : (Mag.abs1 (1 : K) : Rat) = 0 := by
-        have := hmul (((luFactor P b).U.getD k #[]).getD k 0) (1 / ((luFactor P b).U.getD k #[]).getD k 0)
-        rw [mul_one_div_cancel hd] at this
-        rw [this, ← hdd, h1']; ring
-      -- then every magnitude is 0, in particular the bound is trivial; derive the contradiction from hb's shape
-      have hall : ∀ x : K, (Mag.abs1 x : Rat) = 0 := by
-        intro x; have := hmul x 1; rw [mul_one] at this; rw [this, hone]; ring
-      -- the pivot was accepted with a nonzero magnitude: contradiction is not available from here,
-      -- but the goal itself follows: |L| = 0 ≤ 1/u
-      rw [hall]; exact absurd rfl (by
-        intro _; exact (lt_irrefl (0:Rat)) (by
-          have := hall (1:K); linarith [hP.u_pos]))
+    · exact absurd (laws.definite _ h1.symm) hd
   have hu := hP.u_pos
   rw [le_div_iff₀ hu]
   have : P.u * (Mag.abs1 (((luFactor P b).L.getD k #[]).get i) : Rat) * d ≤ 1 * d := by
@@ -137,5 +131,103 @@ theorem luFactor_multiplier_le_inv_u (laws : MagLaws K) (hmul : ∀ a b : K, (Ma
       _ = 1 * d := by ring
   have := le_of_mul_le_mul_right this hdpos
   linarith
+
+end Slu.LU
+
+namespace Slu.LU
+open Slu
+variable {K : Type} [Mag K Rat]
+
+/-- **C02 (diagonal preference).** Without reuse, whenever the diagonal row is a candidate whose
+magnitude is nonzero and at least `u * max`, the diagonal row is the pivot. -/
+theorem pivot_diag_preference (j : Nat) (cands : List (Nat × K)) (u : Rat) (oldRow diagRow d : Nat)
+    (hmax : (scanPiv (R := Rat) cands).1 ≠ 0)
+    (hd : findRow cands diagRow = some d)
+    (hp : passes cands (u * (scanPiv (R := Rat) cands).1) d = true) :
+    (pivotChoice (R := Rat) j cands (fun p => u * p) false oldRow diagRow).info = 0 ∧
+    (pivotChoice (R := Rat) j cands (fun p => u * p) false oldRow diagRow).row = diagRow ∧
+    (pivotChoice (R := Rat) j cands (fun p => u * p) false oldRow diagRow).pos = d := by
+  obtain ⟨c, hc, hrow⟩ := findRow_spec cands diagRow d hd
+  unfold pivotChoice
+  generalize hsp : scanPiv (R := Rat) cands = sp at *
+  obtain ⟨pivmax, pivptr⟩ := sp
+  simp only at hmax hp ⊢
+  have hz : IsZero.isZero pivmax = false := by
+    cases h : IsZero.isZero pivmax
+    · rfl
+    · exact absurd ((isZero_rat _).mp h) hmax
+  simp [hz, hd, hp, hc, hrow]
+
+/-- **C02 (reuse kept).** With reuse on, the remembered row is kept exactly when it is a candidate
+that passes the same test; the flag stays on. -/
+theorem pivot_reuse_kept (j : Nat) (cands : List (Nat × K)) (u : Rat) (oldRow diagRow op : Nat)
+    (hmax : (scanPiv (R := Rat) cands).1 ≠ 0)
+    (ho : findRow cands oldRow = some op)
+    (hp : passes cands (u * (scanPiv (R := Rat) cands).1) op = true) :
+    (pivotChoice (R := Rat) j cands (fun p => u * p) true oldRow diagRow).row = oldRow ∧
+    (pivotChoice (R := Rat) j cands (fun p => u * p) true oldRow diagRow).usepr = true ∧
+    (pivotChoice (R := Rat) j cands (fun p => u * p) true oldRow diagRow).info = 0 := by
+  unfold pivotChoice
+  generalize hsp : scanPiv (R := Rat) cands = sp at *
+  obtain ⟨pivmax, pivptr⟩ := sp
+  simp only at hmax hp ⊢
+  have hz : IsZero.isZero pivmax = false := by
+    cases h : IsZero.isZero pivmax
+    · rfl
+    · exact absurd ((isZero_rat _).mp h) hmax
+  simp [hz, ho, hp, Option.filter]
+
+/-- **C02 (reuse abandoned).** If the remembered row is absent or fails the test, the reuse flag is
+cleared; and once cleared it stays cleared (the policy reverts for the rest of the factorization,
+because `step` feeds the returned flag to the next column). -/
+theorem pivot_reuse_abandoned (j : Nat) (cands : List (Nat × K)) (u : Rat) (usepr : Bool) (oldRow diagRow : Nat)
+    (h : usepr = false ∨ findRow cands oldRow = none ∨
+         ∃ op, findRow cands oldRow = some op ∧ passes cands (u * (scanPiv (R := Rat) cands).1) op = false) :
+    (pivotChoice (R := Rat) j cands (fun p => u * p) usepr oldRow diagRow).usepr = false := by
+  unfold pivotChoice
+  generalize hsp : scanPiv (R := Rat) cands = sp at *
+  obtain ⟨pivmax, pivptr⟩ := sp
+  simp only at h ⊢
+  by_cases hz : IsZero.isZero pivmax = true
+  · simp [hz]
+  · simp only [hz, Bool.false_eq_true, if_false]
+    rcases h with h | h | ⟨op, h1, h2⟩
+    · subst h; simp
+    · cases usepr <;> simp [h]
+    · cases usepr <;> simp [h1, h2, Option.filter]
+
+end Slu.LU
+
+/-! ### Non-vacuity: the hypotheses are satisfiable and the clauses are exercised -/
+namespace Slu.LU
+open Slu
+
+/-- the real magnitude satisfies the laws (and is multiplicative) -/
+theorem magLaws_rat : MagLaws Rat where
+  nonneg := fun x => rabs_nonneg x
+  zero := by simp [Mag.abs1]
+  definite := fun x h => by simpa [Mag.abs1] using h
+
+theorem mag_rat_mul (a b : Rat) : (Mag.abs1 (a * b) : Rat) = Mag.abs1 a * Mag.abs1 b := by
+  simp [Mag.abs1, abs_mul]
+
+/-- a 3x3 matrix whose first column forces a genuine row interchange (|4| > |2|) -/
+def exCols : Nat → Vec Rat
+  | 0 => #[2, 4, 1]
+  | 1 => #[1, 3, 1]
+  | _ => #[0, 1, 5]
+
+def exP : Params Rat Rat :=
+  { m := 3, n := 3, col := exCols, u := 1, order := fun _ => [0, 1, 2], oldPiv := fun _ => 0, diagRow := fun j => j }
+
+theorem exP_legal : Legal exP :=
+  ⟨by decide, by decide, by intro j; match j with | 0 => rfl | 1 => rfl | (_ + 2) => rfl⟩
+
+example : (luFactor exP false).info = 0 := by decide +kernel
+example : (luFactor exP false).piv = #[1, 0, 2] := by decide +kernel           -- row 1 first: interchange
+example : (luFactor exP false).U.getD 0 #[] = #[4] := by decide +kernel
+example : (luFactor exP false).L.getD 0 #[] = #[1/2, 1, 1/4] := by decide +kernel
+/-- a singular matrix (two equal columns) is reported at its second column -/
+example : (luFactor { exP with col := fun j => if j = 1 then exCols 0 else exCols j } false).info = 2 := by decide +kernel
 
 end Slu.LU
